@@ -63,7 +63,7 @@ def case_bins(run, i):
     import cnvlib.antitarget as A
     rng = run.rng("bins", i)
     pre = "chr" if rng.random() < 0.6 else ""
-    canon = [pre + x for x in ("1", "2", "7", "X")]
+    canon = [pre + x for x in ("1", "2", "7", "10", "X")]        # "10" sorts before "2" as a string: natural and lexicographic order differ
     tchroms = list(rng.choice(canon, int(rng.integers(1, 4)), replace=False))
     tchroms.sort(key=canon.index)
     if rng.random() < 0.25:
@@ -80,7 +80,7 @@ def case_bins(run, i):
         if rng.random() < 0.5:
             achroms += ["chrUn_gl000220" if pre else "MT", (pre + "1_random") if pre else "HLA-B"]   # untargeted non-canonical
         access = []
-        nat = {c: k for k, c in enumerate([pre + x for x in ("1", "2", "7", "9", "X")] + ["chr6_alt", "HLA-A", "chrUn_gl000220", "MT", pre + "1_random", "HLA-B"])}
+        nat = {c: k for k, c in enumerate([pre + x for x in ("1", "2", "7", "9", "10", "X")] + ["chr6_alt", "HLA-A", "chrUn_gl000220", "MT", pre + "1_random", "HLA-B"])}
         for c in sorted(achroms, key=lambda c: nat[c]):
             top = max([b[2] for b in baits if b[0] == c] + [scale]) + int(rng.integers(0, 6 * avg))
             pos = int(rng.choice([0, 100, 10000]))
@@ -144,7 +144,7 @@ def case_cli(run, i):
     from ..monitors import cli_plumb
     rng = run.rng("cli", i)
     pre = "chr" if i % 2 else ""
-    tchroms = [pre + x for x in ("1", "2", "X")][: int(rng.integers(1, 4))]
+    tchroms = [pre + x for x in ("1", "2", "10", "X")][: int(rng.integers(1, 5))]
     baits = _baits(rng, tchroms, int(rng.choice([2000, 50000])))
     d = os.path.join(run.workdir, f"cli12_{run.shard}_{i}")
     os.makedirs(d, exist_ok=True)
@@ -173,11 +173,20 @@ def case_cli(run, i):
                 fh.write(f"{c}\t0\t{top[c]}\n")
         aavg, amin = int(rng.choice([20000, 50000])), [None, 1000, 5000][i % 3]
         use_acc = bool(i % 4)
-        argv = ["antitarget", ptgt, "-o", panti, "-a", str(aavg)] + (["-m", str(amin)] if amin else []) + (["-g", pacc] if use_acc else [])
+        tin = ptgt
+        if i % 3 == 0:
+            # the target file handed to antitarget may hold zero-width rows (SNP-style baits): they still are targets
+            tin = os.path.join(d, "targets_zw.bed")
+            rows_t = _bed_rows(ptgt)
+            extra = [(c, top[c] - 150000 + 7, top[c] - 150000 + 7, "snp") for c in tchroms]
+            with open(tin, "w") as fh:
+                for c, s_, e, g in sorted(rows_t + extra, key=lambda r: (tchroms.index(r[0]), r[1], r[2])):
+                    fh.write(f"{c}\t{s_}\t{e}\t{g}\n")
+        argv = ["antitarget", tin, "-o", panti, "-a", str(aavg)] + (["-m", str(amin)] if amin else []) + (["-g", pacc] if use_acc else [])
         r = cli_plumb.check_cli(run, rt, A, "do_antitarget", argv, dict(avg_bin_size=aavg, min_bin_size=amin, access=use_acc), "antitarget", truthy=("access",))
         if r is not None:
             got, res, wit = r
-            ntgt = len(_bed_rows(ptgt))
+            ntgt = len(_bed_rows(tin))
             if len(got["targets"]) != ntgt or (use_acc and len(got["access"]) != len(tchroms)):
                 run.violate("cli.antitarget[plumbing]", "antitarget-cli-passes-wrong-table", "the tables reaching do_antitarget are not the files' tables", wit)
             elif not isinstance(res, Exception):
